@@ -845,6 +845,7 @@ def run(ctx: Ctx) -> None:
 
 # ---------------------------------------------------------------------------
 WITNESSES = [
+    {"name": "seeded-C13-10", "file": "caches/base_full_cache.py", "old": "                # The input data is already cached => we don't store it again.\n                self._last_accessed_index.value = index\n                return False\n", "new": "                # The input data is already cached => we don't store it again.\n                return False\n", "expect": "13.10", "note": "BaseFullCache: a cache hit on already stored inputs no longer updates the last a"},
     {"name": "parallel-steps-skip-the-last-component", "file": "utils/derivatives/finite_differences.py", "old": "            f_0 = outputs[0]\n            for i in range(n_dim):", "new": "            f_0 = outputs[0]\n            for i in range(n_dim - 1):", "expect": "13.7"},
     {"name": "linearization-drops-failed-slots", "file": _DPL, "old": "        return [out.jacobian if out is not None else None for out in ordered_outputs]", "new": "        return [out.jacobian for out in ordered_outputs if out is not None]", "expect": "13.8"},
     {"name": "cache-jacobian-under-the-hash-lock", "file": "caches/base_full_cache.py", "old": "    @synchronized\n    def cache_jacobian(", "new": "    @synchronized_hashes\n    def cache_jacobian(", "expect": "13.4"},
